@@ -350,6 +350,15 @@ func (s *Session) tryReplay(u *Unit, o *Obligation) *ReplayResult {
 	if o.Result.Status == "sat" {
 		vals, desc = s.modelValues(u, o)
 	}
+	if vals != nil {
+		for _, m := range corpusRe.FindAllStringSubmatch(string(tb), -1) {
+			if _, ok := vals[m[1]]; !ok {
+				vals = nil // the template is driven by its corpus, not by entry values of the function
+				desc = "template variables are not entry values"
+				break
+			}
+		}
+	}
 	if vals == nil {
 		// no model (quantified obligation answered unknown, or extraction failed): search the template's
 		// boundary corpus for a witness; every candidate is judged by the oracle on the real code
